@@ -14,13 +14,14 @@ TRUSTED_BASE = [
     "hand-written model coq/Model/Listener.v of the session loop with respect to client_listener_timeout; fact LISTENER_TIMEOUT_SPARES_ACTIVE_SESSIONS",
     "the real endpoint over a scripted SOCKS5 server that falls silent (c15_silent_front, real time); fact MUX_AUTH_UNDER_ESTABLISHMENT_TIMEOUT",
     "the same server silent at the UDP ASSOCIATE a new client source needs in the middle of a tunnel (c15_udp_front scenario 5, real time); fact UDP_ASSOCIATE_UNDER_ESTABLISHMENT_TIMEOUT",
+    "hand-written model listener_handshake of coq/Model/Listener.v (the handshake deadline as an instant the clock must be able to represent; CLOCK_ROOM_MS, FAR_FUTURE_MS); facts TLS_HANDSHAKE_HAS_ONE_DEADLINE, TLS_HANDSHAKE_DEADLINE_SATURATES",
 ]
 ASSUMPTIONS = [
     "tokio::time::timeout never fires before its deadline and polls the inner future first",
     "establishment and handshake timeouts are tokio::time::timeout wrappers whose presence is a regenerated structural fact; their firing is exercised through the session door in C10",
 ]
 RULE = ("activity patterns relative to T: arrival gaps in {1, 7, T/3, T-3, T-1, T, T+1, T+7, 2T-1, 2T, 2T+3, 3T+11}, one-sided and two-sided traffic, "
-        "back-pressure stalls shorter and longer than T, ends idle / EOF / flush-never / error; whole sessions (HTTP/1.1, HTTP/2) with a tunnel transferring under a short client-listener timeout, then idle; CONNECT ip:port / _udp2 through a SOCKS5 forwarder whose server falls silent at the greeting / authentication / request, or at the UDP ASSOCIATE made for a new client source inside an open _udp2 tunnel;  pure-arrival scenarios carry the direct oracle "
+        "back-pressure stalls shorter and longer than T, ends idle / EOF / flush-never / error; whole sessions (HTTP/1.1, HTTP/2) with a tunnel transferring under a short client-listener timeout, then idle; CONNECT ip:port / _udp2 through a SOCKS5 forwarder whose server falls silent at the greeting / authentication / request, or at the UDP ASSOCIATE made for a new client source inside an open _udp2 tunnel; the real listener's timers, a handshake slower than its timeout, and a prompt client under handshake timeouts of an hour, 10^11 s and i64::MAX s;  pure-arrival scenarios carry the direct oracle "
         "(closed no earlier than T and no later than 2T after the last transfer, never while a transfer happens in every period); "
         "non-trivial = some gap >= T-3; distinct = distinct script")
 
@@ -100,6 +101,14 @@ def gen_cases(rng, ctx):
     for hs in (1000, 1500):
         l = line("c14_front", [[4, hs, 60000]])
         cases.append(Case(l, None, kind="live:listener-slow-handshake", nontrivial=True, meta={"front": True, "kind": 4, "hs": hs, "lt": 60000}))
+    # a prompt client under a very long handshake timeout (tls_handshake_timeout_secs, here in seconds as in the settings file):
+    # an hour, three thousand years, and the largest value the settings reader accepts (i64::MAX, a natural way to write "no limit").
+    # Nothing is slow: the handshake is completed at once, so the timeout must not fire and the client must be served
+    for secs in (3600, 100000000000, 9223372036854775807):
+        l = line("c14_front", [[5, secs, 60000]])
+        # (the model runner's numbers are OCaml ints, so the model is given the seconds in two halves)
+        lm = line("c14_front", [[5, 0, 60000], [secs >> 32, secs & 0xFFFFFFFF]])
+        cases.append(Case(l, lm, kind="live:listener-huge-handshake-timeout", nontrivial=True, meta={"front": True, "kind": 5, "hs": secs, "lt": 60000}))
     # the service channels' session timer: after a completed speedtest download / upload / a ping the client stays connected
     # and silent; the session has to be closed by its timer (HTTP/2 through the door and the TLS listener, HTTP/3 through QUIC)
     for front, name in ((0, "h2"), (1, "h2-listener"), (3, "h3-quic")):
@@ -179,6 +188,15 @@ def judge(case, impl, model, spec, ctx):
                 return [("violation", "real listener, TLS handshake timeout %d ms, a handshake whose ClientHello arrived after about %d ms and whose next flight was held back "
                                       "another %d ms: the handshake was accepted and a request served (the client knew after %d ms); a handshake that does not complete "
                                       "within its timeout is dropped" % (m["hs"], m["hs"] * 6 // 10, m["hs"] * 7 // 10, ms))]
+            return []
+        if m["kind"] == 5:
+            served = untok(impl.split()[0])[0]
+            if not served:
+                return [("violation", "real listener, tls_handshake_timeout_secs = %d, a client that completes its TLS handshake at once and sends CONNECT _check: "
+                                      "the endpoint refused the handshake or ended the connection without answering 200 (the connection was dropped although the handshake "
+                                      "took far less than its timeout)" % m["hs"])]
+            if model is not None and impl != model:
+                return [("disagree", "real listener, tls_handshake_timeout_secs = %d, prompt client: %s vs model %s" % (m["hs"], impl, model))]
             return []
         closed, when = untok(impl.split()[0])
         t = m["hs"] if m["kind"] <= 1 else m["lt"]
